@@ -82,6 +82,10 @@ def _strip_fun(ev, t, chars, side):
         ev.st.run.counters[ck] = 1
         ev.st.assume(z3.Contains(t, r))
         ev.st.assume(z3.Length(r) <= z3.Length(t))
+        if side == "r":
+            ev.st.assume(z3.PrefixOf(r, t))     # rstrip keeps a prefix, lstrip a suffix
+        if side == "l":
+            ev.st.assume(z3.SuffixOf(r, t))
         cls = z3.Union(*[z3.Re(c) for c in chars]) if len(chars) > 1 else z3.Re(chars)
         notcls = z3.Complement(z3.Concat(cls, z3.Full(z3.ReSort(S)))) if side in ("", "l") else None
         if side in ("", "l"):
